@@ -4,6 +4,7 @@ use std::panic;
 
 mod bc;
 mod gck;
+mod lexcmd;
 mod pos;
 
 fn hex_to_bytes(s: &str) -> Vec<u8> {
@@ -59,6 +60,7 @@ fn main() {
         "position" => pos::position(&rest),
         "bc" => bc::bc(&rest),
         "gck" => gck::gck(&rest),
+        "lex" => lexcmd::lexcmd(&rest),
         _ => println!("unknown_command=1"),
     });
     if let Err(e) = r {
